@@ -113,7 +113,7 @@ def run(chk: Check) -> None:
                     and t[1] == ("attr", ("self",), "modules")
             chk.ob("R06.2", key, ok, g.loc(),
                    "%s must select '%s' over all of self.sections with its own argument: %s" % (key, s, why), 3)
-    chk.floor("R06.1", "interval/section lookup methods", nl, 10)
+    chk.floor("R06.1", "interval/section lookup methods", nl, 7)
     _extent(chk, sec, site)
 
 
